@@ -109,13 +109,13 @@ class C01(Check):
                               'many-category column')]
         return [('e1-a', 'E1, one-column frames named "a", 0..4 rows for '
                          'alphabets <= 4, else 0..3'),
-                ('e1-names', 'E1, the five other field names'),
                 ('e3-d2', 'E3, two-operation sequences, frames 0..3 rows'),
                 ('e1-two', 'E1, two-column frames (ordered pairs of 18 '
                            'families, 2 rows, 3-value sub-alphabets, two '
                            'name pairs)'),
                 ('e3-d3', 'E3, all 125 three-operation sequences, frames '
-                          '0..3 rows')]
+                          '0..3 rows'),
+                ('e1-names', 'E1, the five other field names, 0..3 rows')]
 
     def _singles(self, tier, names, maxrows=3):
         fams = FA.BASE_FAMILIES + FA.EXTRA_FAMILIES
@@ -136,7 +136,7 @@ class C01(Check):
             for fr in self._singles(tier, ['b c']):
                 yield {'mode': 'e1', 'frame': fr}
         elif layer == 'e1-names':
-            for fr in self._singles(tier, FA.NAMES[1:]):
+            for fr in self._singles('quick', FA.NAMES[1:]):
                 yield {'mode': 'e1', 'frame': fr}
         elif layer == 'e1-two':
             pairs = [('a', 'b c'), ('a_min_ok', 'a')]
